@@ -428,6 +428,17 @@ def _json_arms(R):
     spellings give the same table)"""
     P = R.prog
     f = R.need_fn("sqlgrep::model::Value::json_value")
+    # a thin wrapper (`serde_json::Value::from(self)`) delegates the table to the function that has it
+    for _ in range(2):
+        loc_calls = [c for c in f.calls if c.func.get("res_local") and (c.func.get("crate") == "sqlgrep" or True) and P.callee_keys(f, c)]
+        if len(loc_calls) == 1 and len(f.calls) <= 2 and len(loc_calls[0].args) == 1 and \
+                all(o.kind == "arg" and o.arg == 1 for o in F.origins(f, loc_calls[0].args[0], depth=4)) and \
+                any(o.kind == "call" and o.call is loc_calls[0] for o in F.origins(f, 0, depth=4, through_calls=False)):
+            g_ = P.fns[P.callee_keys(f, loc_calls[0])[0]]
+            if g_.local_ty(0) == f.local_ty(0):
+                f = PR.view(P, g_)
+                continue
+        break
     fa = PR.facts(f)
     va = P.adts.get("sqlgrep::model::Value") or {"variants": []}
     variants = [v["name"] for v in va["variants"]]
@@ -503,7 +514,7 @@ def _json_arms(R):
         "Float": ({"Number", "Null"}, r"Number::from_f64$"),
         "Bool": ({"Bool"}, None),
         "String": ({"String"}, r"String as core::clone::Clone>::clone$|ToOwned for str>::to_owned$|ToString>::to_string$"),
-        "Array": ({"Array"}, r"^sqlgrep::model::Value::json_value$"),      # + every element is rendered: see the adapter check below
+        "Array": ({"Array"}, r"^sqlgrep::model::Value::json_value$|^" + re.escape(f.spath) + "$"),      # + every element is rendered: see the adapter check below
         "Timestamp": ({"String"}, r"ToString>::to_string$"),
         "Interval": ({"String"}, r"ToString>::to_string$"),
     }
